@@ -7,7 +7,7 @@ NOT_APPLICABLE = [{"property_id": "C%02d" % i, "reason": _PENDING} for i in rang
 
 TEXT = {
     "C01": {
-        "engine": "E5 codec PBT",
+        "engine": "E5 codec PBT + E4 child server (tracker registration)",
         "technique": "property-based testing (rapid): differential against an independent reference codec + round-trip, over generated objects and generated read-buffer scripts; native fuzzing via rapid.MakeFuzz in thorough",
         "level_text": "Generated-input exploration: every encoder kind is drained through generated buffer-size scripts and must emit exactly the bytes of an independently written Hotline codec (so consistent encoder+decoder edits are caught), terminate, and decode back. No exhaustiveness is claimed; the evidence reports counts per kind and the multi-read fraction.",
         "design_ref": "DESIGN.md section 2, C01",
@@ -56,7 +56,7 @@ TEXT = {
         "level_note": "Trusted base: hlsim snapshot/diff, the decoy layout, hlref path encoder, reference transfer client. Symlinks pre-planted by an operator inside the root are not modelled.",
     },
     "C08": {
-        "engine": "E1 bubble world",
+        "engine": "E1 bubble world + E4 child server (slow reader)",
         "technique": "property-based testing (rapid) with an independent reference download client: differential between bytes on disk and the strictly parsed transfer stream / reply size fields",
         "level_text": "Generated files (boundary sizes, names, stored forks) are downloaded plain, resumed at generated offsets and previewed through the real request handler and transfer loop; the reference client parses the stream strictly and compares every byte with the file on disk and every announced size with what follows.",
         "design_ref": "DESIGN.md section 2, C08",
@@ -105,7 +105,7 @@ TEXT = {
         "level_note": "Trusted base: folding rules of the reference client (protocol document), hlsim, synctest. The fast-forward uses throw-away registry entries (Add/Delete on the production MemClientMgr), not 65k real logins.",
     },
     "C17": {
-        "engine": "E1 bubble world",
+        "engine": "E1 bubble world + E4 child processes (production listeners; the main program)",
         "technique": "model-based stateful property testing (rapid state machine) under a fake clock: ban model with exact expiry instants vs the real connection loop, ban file and restart",
         "level_text": "Generated histories of kicks, bans, clock advances, reconnects from exact and near-miss addresses and restarts; because the clock is synctest's fake clock the model's 'banned at t' is exact, including the instants right at expiry. Every connection attempt is checked in both directions (refused iff banned) together with its side effects.",
         "design_ref": "DESIGN.md section 2, C17",
@@ -126,14 +126,14 @@ TEXT = {
         "level_note": "Trusted base: hlref strict stream decoder, hlsim FairWriter (a ticket lock modelling a socket write lock), structural quiescence predicate over runtime.Stack (all goroutines with mobius/hlsim frames parked on 3 consecutive dumps).",
     },
     "C19": {
-        "engine": "E1 bubble world + E2 live world",
+        "engine": "E1 bubble world + E2 live world + E4 child process (the main program)",
         "technique": "property-based testing over generated concurrent reader/poster/login mixes; oracle = history invariant (every reply is a version of the board; final board is a permutation-free concatenation of acknowledged posts) in a synctest bubble, plus stress sampling of real schedules with the production pump",
         "level_text": "Generated concurrent mixes of board reads, posts and simultaneous logins at board/agreement sizes around the 512-byte ReadAll buffer and up to the 64 KiB field; each reply must be the whole board at some instant, no acknowledged post may be missing from MessageBoard.txt (also at the instant of the acknowledgement, live engine), announcements are counted per client. Schedules are sampled.",
         "design_ref": "DESIGN.md section 2, C19",
         "level_note": "Trusted base: board post format re-implemented from the protocol template, hlsim, structural quiescence predicate (live).",
     },
     "C20": {
-        "engine": "E3 crash enumerator",
+        "engine": "E3 crash enumerator + E1 bubble world (acknowledgement instants) + E4 child process (the main program)",
         "technique": "fault enumeration over generated inputs: rapid generates update sequences, strace injects SIGKILL before every file system call of the in-flight update, the reloaded stores are compared with the old and the new value",
         "level_text": "For each generated update every system-call boundary of the updating process is materialised as an on-disk state (exhaustive per update) and reloaded with the real constructors; update sequences and payload sizes are sampled by rapid. Exactly the property's quantifier (crash points = system-call boundaries) within the stated fault model.",
         "design_ref": "DESIGN.md section 2, C20",
